@@ -142,48 +142,55 @@ def arith (op : AOp) (l r : TV) : Except String TV :=
 def pairMem (p : Nat × Nat) (vis : List (Nat × Nat)) : Bool := vis.any (· == p)
 
 mutual
-/-- fuel-indexed; `vis` is DeepEqual's visited set (pairs of addresses, smaller first). -/
-def deepEq (h : Heap) : Nat → List (Nat × Nat) → Val → Val → Bool
-  | 0, _, _, _ => true
+/-- fuel-indexed; `vis` is DeepEqual's visited set (pairs of addresses, smaller first), shared by
+    the whole traversal as in Go: `none` = not equal, `some vis'` = equal so far. -/
+def deepEq (h : Heap) : Nat → List (Nat × Nat) → Val → Val → Option (List (Nat × Nat))
+  | 0, vis, _, _ => some vis
   | fuel+1, vis, a, b =>
     match a, b with
-    | .nil, .nil => true
-    | .bool x, .bool y => x == y
-    | .int x, .int y => x == y
-    | .float x, .float y => feq x y
-    | .str x, .str y => x == y
+    | .nil, .nil => some vis
+    | .bool x, .bool y => if x == y then some vis else none
+    | .int x, .int y => if x == y then some vis else none
+    | .float x, .float y => if feq x y then some vis else none
+    | .str x, .str y => if x == y then some vis else none
     | .ref x, .ref y =>
       let p := if x ≤ y then (x, y) else (y, x)
       match h.get? x, h.get? y with
       | some (.list xs), some (.list ys) =>
-        if pairMem p vis then true
-        else if xs.length != ys.length then false
-        else if x == y then true
+        if pairMem p vis then some vis
+        else if xs.length != ys.length then none
+        else if x == y then some (p :: vis)
         else deepEqList h fuel (p :: vis) xs ys
       | some (.map xs), some (.map ys) =>
-        if pairMem p vis then true
-        else if xs.length != ys.length then false
-        else if x == y then true
+        if pairMem p vis then some vis
+        else if xs.length != ys.length then none
+        else if x == y then some (p :: vis)
         else deepEqMap h fuel (p :: vis) xs ys
-      | _, _ => false
-    | _, _ => false
-def deepEqList (h : Heap) : Nat → List (Nat × Nat) → List Val → List Val → Bool
-  | 0, _, _, _ => true
-  | _, _, [], [] => true
-  | fuel+1, vis, x :: xs, y :: ys => deepEq h fuel vis x y && deepEqList h fuel vis xs ys
-  | _, _, _, _ => false
-def deepEqMap (h : Heap) : Nat → List (Nat × Nat) → List (Bytes × Val) → List (Bytes × Val) → Bool
-  | 0, _, _, _ => true
-  | _, _, [], _ => true
+      | _, _ => none
+    | _, _ => none
+def deepEqList (h : Heap) : Nat → List (Nat × Nat) → List Val → List Val → Option (List (Nat × Nat))
+  | 0, vis, _, _ => some vis
+  | _, vis, [], [] => some vis
+  | fuel+1, vis, x :: xs, y :: ys =>
+    match deepEq h fuel vis x y with
+    | some vis' => deepEqList h fuel vis' xs ys
+    | none => none
+  | _, _, _, _ => none
+def deepEqMap (h : Heap) : Nat → List (Nat × Nat) → List (Bytes × Val) → List (Bytes × Val) → Option (List (Nat × Nat))
+  | 0, vis, _, _ => some vis
+  | _, vis, [], _ => some vis
   | fuel+1, vis, (k, v) :: r, ys =>
     match alookup k ys with
-    | some w => deepEq h fuel vis v w && deepEqMap h fuel vis r ys
-    | none => false
+    | some w =>
+      match deepEq h fuel vis v w with
+      | some vis' => deepEqMap h fuel vis' r ys
+      | none => none
+    | none => none
 end
 
 def deepFuel (h : Heap) : Nat := 64 + 4 * h.length * (h.length + 1)
 
-def deepEqual (h : Heap) (a b : Val) : Bool := deepEq h (deepFuel h) [] a b
+def deepEqual (h : Heap) (a b : Val) : Bool := (deepEq h (deepFuel h) [] a b).isSome
 
 def isNum : DType → Bool
   | .int | .bool | .float => true
